@@ -1361,6 +1361,87 @@ for _pid in ("C07", "C03", "C04"):
     _add_tie(_pid, "TaffyVerif.Props.TieFlexLine", TIE_FLEXLINE)
     PROPS[_pid]["trusted_base"] = list(PROPS[_pid].get("trusted_base", [])) + [TIE_FLEXLINE_TRUSTED]
 
+# ext-Q (extract/src/{flexmod,flexwhile}.rs -> Generated/Flex.lean): the pure line / cross-axis functions of compute/flexbox.rs translated
+# from the source: collect_flex_lines (two `while` loops over split_at_mut slices under fuel, enumerate().find(..) with a running
+# accumulator), calculate_cross_size (flex_lines[0] read / written: Option, none = the index panic), handle_align_content_stretch,
+# resolve_cross_axis_auto_margins + align_flex_items_along_cross_axis, determine_container_cross_size (a &mut parameter in third position,
+# returned beside the value), align_flex_lines_per_align_content, determine_available_space, determine_used_cross_size, compute_constants,
+# generate_anonymous_flex_items (tree = style lookup + calc resolver). Props/TieFlex.lean proves each equal to the definition of Model/Flex.lean.
+TIE_FLEX = ["TieFlex." + t for t in (
+    "align_flex_items_along_cross_axis_eq max_baseline_eq split_at_mut_ok while_min_eq breakIndex_cons breakIndex_ge breakIndex_le "
+    "breakIndex_pos find_breakIndex while_body_2_eq while_2_eq collect_flex_lines_eq calculate_cross_size_eq "
+    "calculate_cross_size_nil_panics collectFlexLines_ne_nil handle_align_content_stretch_eq resolve_cross_axis_auto_margins_eq "
+    "resolve_cross_needs_isRow_witness determine_container_cross_size_eq mapIdx_alignForward "
+    "align_flex_lines_per_align_content_eq "
+    # functions that take the tree only to read child styles / as the calc resolver
+    "is_auto_eq determine_available_space_eq determine_used_cross_size_eq scrollbar_gutter_shape compute_constants_eq "
+    "rect_map_eq rect_zip_size_eq generate_item_eq generate_filters_eq generate_chain_eq generate_anonymous_flex_items_eq "
+    "generate_anonymous_flex_items_childStyles calculate_cross_size_no_panic "
+    # compute_flexbox_layout: the statements from the style read to styled_based_known_dimensions
+    "zip_minMaxDefinite styled_based_known_dimensions_eq").split()]
+TIE_FLEX_TRUSTED = ("tier T (flex line / cross-axis functions): Generated/Flex.lean is translated from src/compute/flexbox.rs on every run "
+                    "(verif/extract/src/{flexmod,flexwhile}.rs on top of loops.rs): `while c { .. }` is <f>.while under an iteration bound over the "
+                    "tuple of the outer locals its body assigns (none = a panic in the body or not finished); `split_at_mut(n)` answers none "
+                    "beyond the length; `v.push(x)` is v ++ [x], `new_vec_with_capacity` is []; `enumerate().find(closure)` whose closure "
+                    "updates one captured local is enumerate_find_state (visit in order, thread the local, stop at the first true); "
+                    "`xs[0]` read / written is a match on the list (`[]` = none: Rust panics); `iter_mut().for_each(|x| ..)` is List.map; a `&T` "
+                    "argument of a translated pure function may be the `&mut` loop variable; a `&mut` parameter is returned (beside the value). "
+                    "Props/TieFlex.lean proves collect_flex_lines (for every fuel >= the number of items: some of the model's lines), "
+                    "calculate_cross_size (on non-empty lines or with is_wrap; the panic on [] is stated and shown not to arise), "
+                    "handle_align_content_stretch, determine_container_cross_size, align_flex_lines_per_align_content, "
+                    "align_flex_items_along_cross_axis and resolve_cross_axis_auto_margins (under isRow = dir.isRow, set by compute_constants) "
+                    "equal to the definitions of Model/Flex.lean for every [Num α] and all arguments; likewise determine_available_space, "
+                    "determine_used_cross_size, compute_constants and generate_anonymous_flex_items, in which the tree parameter is used only "
+                    "as the calc resolver (dropped) and to read child styles (`tree.get_flexbox_child_style(n)` is `styleOf n`; "
+                    "`tree.child_ids(node)` is 0 .. child_count: a child is addressed by its index; the iterator chain of "
+                    "generate_anonymous_flex_items is compared token by token, its two filter predicates and its item closure are translated; "
+                    "`index as u32` is `index`); Dimension::is_auto is read off `self.0.is_auto()` / `tag() == AUTO_TAG`; Rect::map, "
+                    "Rect::zip_size, TaffyZero at Option<f32> are translated from geometry.rs / style_helpers.rs; of compute_flexbox_layout the "
+                    "statements from the style read to styled_based_known_dimensions are translated as a function of (style, inputs) and the "
+                    "statements after them (ComputeSize short-circuit, call of compute_preliminary) are compared token by token")
+for _pid in ("C07", "C04", "C12", "C06"):
+    _add_tie(_pid, "TaffyVerif.Props.TieFlex", TIE_FLEX)
+    PROPS[_pid]["trusted_base"] = list(PROPS[_pid].get("trusted_base", [])) + [TIE_FLEX_TRUSTED]
+# fifth batch, block.rs (extract/src/blockmod.rs -> Generated/Block.lean): functions that talk to the tree inside loops over the item list,
+# in interaction form over Gen.Tree.Prog at NodeId := Nat (the child's index): a `for` whose body performs interactions is
+# Gen.Block.for_mut / for_fold applied to the body as a program-valued step function of (tuple of the outer locals, item).
+# Props/TieBlock.lean proves generated = toGen (hand-written ProgM program of Model/Block.lean): same calls in the same order with the
+# same inputs, same layouts set, same results.
+TIE_BLOCK = ["TieBlock." + t for t in (
+    "toGen_bind bind_ret bind_assoc resolve_to_option_eq size_sub_eq maybeResolve_some size_dim_f32_maybe_resolve_eq "
+    # the margin-collapsing loop (C10), the content-based width loop
+    "flowLoop_cons for_mut_flow perform_final_layout_on_in_flow_children_eq contentWidthLoop_cons for_fold_width "
+    "determine_content_based_container_width_eq "
+    # the item list (C05, C12), the absolute pass (C11, C06)
+    "map_enum_filter generate_item_list_eq absLoop_cons for_fold_abs perform_absolute_layout_on_absolute_children_eq "
+    # the whole algorithm: compute_inner (with the hidden-children loop) and the entry point compute_block_layout
+    "allResG_toGen allRes_bind bindG_congr_all bindG_congr flowLoop_ids performFinal_ids absLoop_congr generateItemsFrom_ids "
+    "styleOf_ok for_fold_hidden overflow_match compute_inner_eq compute_block_layout_eq").split()]
+TIE_BLOCK_TRUSTED = ("tier T (block.rs): Generated/Block.lean is translated from src/compute/block.rs on every run (verif/extract/src/blockmod.rs "
+                     "on top of expr.rs / stmt.rs): interaction form over Gen.Tree.Prog with NodeId := Nat (the child's index, as in "
+                     "Model/Block.lean); struct BlockItem is compared field by field with BlockModel.BlockItem; a `for` over the item list "
+                     "whose body calls the tree is Gen.Block.for_mut (elements updated) / for_fold applied to the body as a step function of "
+                     "(the tuple of outer locals the body assigns, the element), `.filter(p)` guards the step, `continue` ends it; an `if` / "
+                     "`match` statement without interactions is the value of the tuple of locals it assigns; `opt.unwrap_or_else(|| {..tree..})` "
+                     "is a bind of `match opt with | some v => ret v | none => <closure body>`; the `&mut [BlockItem]` parameter is returned "
+                     "with the result; the pure reads of the tree (get_block_child_style, child_ids, child_count, get_child_id) are leading "
+                     "function parameters of the generated definition (Model/Block.lean takes the list of child styles); iterator chains "
+                     "(map / filter / enumerate / all / fold / collect with tuple-pattern closures) are list functions; `x.is_none() || .. x.unwrap() ..` "
+                     "is a match on x; `<position> as u32` is the identity (Gen.Block.as_u32: fewer than 2^32 children); Rect::map, "
+                     "Rect::zip_size, Size::map_width/map_height, Size - Size, Size<Dimension>::maybe_resolve at an f32 context and "
+                     "LengthPercentageAuto::resolve_to_option are translated from geometry.rs / resolve.rs / dimension.rs into the same file. "
+                     "Props/TieBlock.lean proves generate_item_list (children addressed 0..n), determine_content_based_container_width, "
+                     "perform_final_layout_on_in_flow_children and perform_absolute_layout_on_absolute_children equal to "
+                     "BlockModel.generateItemList / contentWidthLoop / performFinalLayoutOnInFlowChildren / absLoop read as generated programs "
+                     "(toGen), and compute_inner / compute_block_layout (all of block.rs) equal to BlockModel.computeInner / computeBlockLayout on "
+                     "the container's style and the list of child styles, under the addressing of Model/Block.lean (child_count node = n, "
+                     "child_ids node = 0..n, get_child_id node i = i), for every [Num α] and all arguments; `for order in 0..len` is "
+                     "for_fold over List.range len, a call f(tree, ..) of a function of the file is a bind of its translation (hoisted out of "
+                     "an expression whose other operands are pure), `T { f: v, ..base }` is a record update")
+for _pid in ("C10", "C11", "C06", "C05", "C12"):
+    _add_tie(_pid, "TaffyVerif.Props.TieBlock", TIE_BLOCK)
+    PROPS[_pid]["trusted_base"] = list(PROPS[_pid].get("trusted_base", [])) + [TIE_BLOCK_TRUSTED]
+
 # Tier T for the slice / Vec / iterator code of the grid (extract/src/{slices,gridinit}.rs): effects (checked u16 arithmetic, unwrap)
 # in Except GErr in Rust's evaluation order, slices / finite iterators as Lists, cycle() / repeat as Slice.Stream, loops as folds over
 # the tuple of the locals they assign (vocabulary: Model/SliceOps.lean). Generated/TrackFns.lean: the track sizing functions of
